@@ -11,6 +11,9 @@
 //          Make operations on explicit line l are refused (-1).  Static lines are not affected.
 //   14 s l / 15 s / 16 s i  detector in the table shared by all threads (explicit / declared / indexed)
 //   17 s   isTripped of shared detector s          18 s d  if (shared[s].isTripped()) read datum d else -1
+// Index arguments (ops 2, 8, 16) 100..103 are selectors for huge indices that must be rejected like any other
+// out-of-range index: 100 = UINT_MAX, 101 = 0x80000000, 102 = 0x80000002, 103 = COUNT + 2^31 (they turn negative /
+// small when narrowed to int); every other value is passed as it is.  For the model they are just indices >= COUNT.
 // An operation the harness cannot perform (slot occupied / empty, number out of the configured range,
 // s == d in a move) does not reach the library and returns -1 (the model does the same).
 //
@@ -42,6 +45,17 @@ DECLARE_TRIPLINE()
 DECLARE_INDEXED_TRIPLINES(TW_COUNT)
 
 using namespace gmlc::concurrency;
+
+static unsigned int index_arg(long b)
+{
+    switch (b) {
+        case 100: return 0xFFFFFFFFu;
+        case 101: return 0x80000000u;
+        case 102: return 0x80000002u;
+        case 103: return 0x80000000u + TW_COUNT;
+        default: return (unsigned int)b;
+    }
+}
 
 struct TripWireComp {
     std::vector<TriplineType> lines;  // explicit lines of this case
@@ -94,7 +108,7 @@ struct TripWireComp {
                 return 0;
             case 2: {
                 if (T.count(a)) return -1;
-                auto p = std::make_unique<TripWireTrigger>((unsigned int)b);  // may throw std::out_of_range
+                auto p = std::make_unique<TripWireTrigger>(index_arg(b));  // may throw std::out_of_range
                 T[a] = std::move(p);
                 return 0;
             }
@@ -120,7 +134,7 @@ struct TripWireComp {
                 return 0;
             case 8: {
                 if (D.count(a)) return -1;
-                auto p = std::make_unique<TripWireDetector>((unsigned int)b);
+                auto p = std::make_unique<TripWireDetector>(index_arg(b));
                 D[a] = std::move(p);
                 return 0;
             }
@@ -152,7 +166,7 @@ struct TripWireComp {
                 return 0;
             case 16: {
                 if (shared.count(a)) return -1;
-                auto p = std::make_unique<TripWireDetector>((unsigned int)b);
+                auto p = std::make_unique<TripWireDetector>(index_arg(b));
                 shared[a] = std::move(p);
                 return 0;
             }
